@@ -665,7 +665,7 @@ class DistinctName(Atom):
 def target_class(name, it, buf_for_new=None):
     """an abstract referent class T: T._from_buffer(buf, off) is recorded; T(value, _buffer=b) obeys the constructor contract
     (TypeContract: a fresh region obtained from b.allocate, object placed there)"""
-    T = SymObj("MetaStruct", {"__name__": DistinctName(name)})
+    T = SymObj("MetaStruct", {"__name__": DistinctName(name), "_has_refs": fresh_bool(f"{name}_has_refs")})
     T.closed = True
 
     class FromBuffer:
@@ -729,9 +729,11 @@ def vc_ref():
           else:
               vcls = T if form.startswith("same_class") else target_class("Other", it)
               vbuf = buf if form.endswith("same_buffer") else XB.XBuf("otherbuf")
-              val = SymObj("instance", {"__class__": vcls, "_buffer": vbuf, "_offset": vo, "_size": fresh_int("vsize")})
+              vsize = fresh_int("vsize")
+              val = SymObj("instance", {"__class__": vcls, "_buffer": vbuf, "_offset": vo, "_size": vsize, "_has_refs": vcls.attrs["_has_refs"],
+                                        "_get_size": XB._M(lambda i, s, a, k, n, vsize=vsize: vsize)})
               val.closed = True
-              pre += [vo >= 0, vo < 2 ** 62]
+              pre += [vo >= 0, vo < 2 ** 62, vsize >= 8, vsize < 2 ** 62, vo + vsize <= vbuf.cap, vbuf.cap < 2 ** 62]
           m0 = buf.mem
           buf.live = [(o, 8)]  # the slot itself is live: a new object may not be placed over it
           con = _contract(REF, "Ref._to_buffer", [])
@@ -751,6 +753,14 @@ def vc_ref():
                   ob("no_new_object", len(rec) == 0)
                   target = vo
               else:
+                  if not rec and form == "same_class_other_buffer" and len(b.allocs) == 1:
+                      # no construction through the referent type but a region allocated in the holder's buffer: a duplicate made by
+                      # copying the image -- sound only for a reference-free referent (relative offsets inside the image would point
+                      # from their new places)
+                      ob("image_copy_only_of_a_reference_free_referent", z3.Not(T.attrs["_has_refs"]))
+                      ob("new_object_encoding", XB.W8(b.mem, o) == b.allocs[0][0] - o)
+                      ob("frame_slot_and_new_region", forall_x(lambda x: z3.Implies(z3.And(z3.Or(x < o, x >= o + 8), z3.Or(x < b.allocs[0][0], x >= b.allocs[0][0] + b.allocs[0][1])), b.mem[x] == m0[x])))
+                      continue
                   ob("one_new_object_in_holder_buffer", len(rec) == 1 and rec[0][1] == "T")
                   target = rec[0][3] if rec else None
                   if rec:
@@ -778,7 +788,7 @@ def vc_ref():
     return obs
 
 
-group("ref", vc_ref, [(REF, "Ref._to_buffer"), (REF, "Ref._from_buffer")], ["C08", "C01", "C05", "C03"])
+group("ref", vc_ref, [(REF, "Ref._to_buffer"), (REF, "Ref._from_buffer")], ["C08", "C01", "C05", "C03", "C09"])
 
 
 def vc_unionref():
